@@ -63,6 +63,18 @@ func Projection(r *fw.Rand, d bson.D, o ProjOpts) bson.D {
 		if strings.SplitN(a, ".", 2)[0] == b {
 			b = "zz"
 		}
+		// an $elemMatch whose condition names an unknown operator: the call must
+		// fail, and lungo only finds out when it meets an array at that path
+		if r.Chance(1, 4) {
+			for _, p := range paths {
+				if arr, ok := ref.GetPath(d, p).(bson.A); ok && len(arr) > 0 && !HasNumericSeg(p) {
+					if ed, isDoc := arr[0].(bson.D); isDoc && len(ed) > 0 {
+						return bson.D{{Key: p, Value: bson.D{{Key: "$elemMatch", Value: bson.D{{Key: ed[0].Key, Value: bson.D{{Key: "$isnot", Value: int32(1)}}}}}}}}
+					}
+					return bson.D{{Key: p, Value: bson.D{{Key: "$elemMatch", Value: bson.D{{Key: "$isnot", Value: int32(1)}}}}}}
+				}
+			}
+		}
 		switch r.Intn(6) {
 		case 0:
 			return bson.D{{Key: a, Value: flag(true)}, {Key: b, Value: flag(false)}}
